@@ -368,4 +368,28 @@ theorem arLoop_spec (b : Nat) (hb : 2 ≤ b) (s v : Nat) :
       · intro _; omega
       · intro _; exact hv0
 
+/-- `format_octal` reported no overflow ⇒ the value fits. -/
+theorem ustarFormatOctal_ok (v : Int) (s : Nat) (h : (ustarFormatOctal v s).1 = false) :
+    0 ≤ v ∧ v.toNat < 8 ^ s ∧ (ustarFormatOctal v s).2 = octHead v.toNat s := by
+  rw [ustarFormatOctal_eq] at h ⊢
+  by_cases hneg : v < 0
+  · rw [if_pos hneg] at h; cases h
+  · rw [if_neg hneg] at h ⊢
+    by_cases hfit : v.toNat < 8 ^ s
+    · rw [if_pos hfit]; exact ⟨by omega, hfit, rfl⟩
+    · rw [if_neg hfit] at h; cases h
+
+/-- What `format_octal` wrote without complaint is read back exactly by `tar_atol`. -/
+theorem tarAtol_ustarFormatOctal (v : Int) (s : Nat) (tail : List Nat)
+    (hs : 0 < s) (hs20 : s ≤ 20) (hok : (ustarFormatOctal v s).1 = false)
+    (ht : tail = [] ∨ ∃ c r, tail = c :: r ∧ nonOctal c) :
+    tarAtol ((ustarFormatOctal v s).2 ++ tail) = v := by
+  obtain ⟨h0, hvn, hbytes⟩ := ustarFormatOctal_ok v s hok
+  have hbound : v.toNat ≤ 1152921504606846975 := by
+    have h1 : 8 ^ s ≤ 8 ^ 20 := Nat.pow_le_pow_right (by decide) hs20
+    have h2 : (8 : Nat) ^ 20 = 1152921504606846976 := by decide
+    omega
+  rw [hbytes, tarAtol_octHead _ _ _ hs hvn hbound ht]
+  omega
+
 end LA.NumFmt
